@@ -32,6 +32,7 @@ func resolveDependentFields(
 	dependencies map[string]string,
 	subdefinition string,
 	resolving map[string]bool,
+	resolved map[string][]Field,
 ) ([]Field, error) {
 	fields := []Field{}
 	for i, line := range strings.Split(subdefinition, "\n") {
@@ -108,16 +109,25 @@ func resolveDependentFields(
 			if resolving[resolvedType] {
 				return nil, fmt.Errorf("recursive definition of type %s", resolvedType)
 			}
-			resolving[resolvedType] = true
-			recordFields, err = resolveDependentFields(
-				fieldParentPackage,
-				dependencies,
-				subdefinition,
-				resolving,
-			)
-			delete(resolving, resolvedType)
-			if err != nil {
-				return nil, fmt.Errorf("failed to resolve dependent record: %w", err)
+			// a type used by several fields is resolved once: re-resolving it for every use makes
+			// the work exponential in the depth of the definition (two fields per level suffice).
+			cacheKey := fieldParentPackage + "\x00" + resolvedType
+			if cached, ok := resolved[cacheKey]; ok {
+				recordFields = cached
+			} else {
+				resolving[resolvedType] = true
+				recordFields, err = resolveDependentFields(
+					fieldParentPackage,
+					dependencies,
+					subdefinition,
+					resolving,
+					resolved,
+				)
+				delete(resolving, resolvedType)
+				if err != nil {
+					return nil, fmt.Errorf("failed to resolve dependent record: %w", err)
+				}
+				resolved[cacheKey] = recordFields
 			}
 			isRecord = true
 		}
@@ -177,7 +187,7 @@ func ParseMessageDefinition(parentPackage string, data []byte) ([]Field, error) 
 		rosType := strings.TrimPrefix(header, "MSG: ")
 		dependencies[rosType] = strings.Join(lines[1:], "\n")
 	}
-	fields, err := resolveDependentFields(parentPackage, dependencies, definition, map[string]bool{})
+	fields, err := resolveDependentFields(parentPackage, dependencies, definition, map[string]bool{}, map[string][]Field{})
 	if err != nil {
 		return nil, fmt.Errorf("failed to build dependent records: %w", err)
 	}
